@@ -110,7 +110,17 @@ def run(ctx):
                               "AppendSignal / InsertSignal / RemoveSignal; BO b: SetByteOrder (1 = big endian); ST k size: SetType; "
                               "SE k e: SetEnum; SL/SR k a: shift; CP: compact; SZ n: UpdateSizeByte",
                        "how": "./check C02 --replay <this file>"})
+    # per-operation trace replayed on the state machine of coq/C02/History.v
+    trc, tlog = vlib.sh([drv, "--trace", out + ".trace"], timeout=2400)
+    tm = re.search(r"TRACE HISTORIES (\d+) STEPS (\d+) MISMATCHES (\d+)", tlog)
+    t_hist, t_steps, t_mism = (int(tm.group(1)), int(tm.group(2)), int(tm.group(3))) if tm else (0, 0, -1)
     new_fail = [s for s in summ["propfail"] if not any(k["signature"] == s for k in ctx.known_open)]
+    if (trc != 0 or t_mism != 0) and not new_fail:
+        ctx.violation("c02-history-correspondence",
+                      "the state machine of coq/C02/History.v (byte order of message and signals, geometry, layout order, Filters() after "
+                      "every operation) disagrees with the implementation on %s of %s steps; filters_fresh / byte_order_propagates no "
+                      "longer speak about this code: %s" % (t_mism, t_steps, tlog[:900]),
+                      {"correspondence": "props/C02 per-operation trace", "driver_output": tlog[:3000]}, found_input=False)
     if (not ok or mism != 0 or total != summ.get("cases", -1)) and not new_fail:
         ctx.violation("c02-correspondence",
                       "model and implementation disagree on %s of %s layout(s) although no new property predicate failed; the "
@@ -121,6 +131,7 @@ def run(ctx):
         print(open(out).read()[:3000])
         print(open(out + ".summary").read()[:3000])
         print(mlog)
+        print(tlog)
     ctx.coverage.update({
         "evaluations": summ.get("decodes", 0),
         "layouts": summ.get("cases", 0),
@@ -141,6 +152,9 @@ def run(ctx):
         "samples": summ["samples"][:8],
         "distribution": summ["hist"],
         "model_mismatches": mism,
+        "history_model_histories": t_hist,
+        "history_model_steps": t_steps,
+        "history_model_mismatches": t_mism,
         "model_layouts": total,
         "model_decodes": decs,
         "property_predicate_failures": sorted(summ["propfail"]),
